@@ -77,4 +77,30 @@ theorem double_put_illegal (own : Nat → Owner) (o b : Nat) (h : own b = .op o)
     poolRun own [.put o b, .put o b] = none := by
   simp [poolRun, poolStep, h]
 
+/-- the pool events of one control-flow path of a function, as operation 0 on buffer 0; an event the
+    extractor could not classify maps to a use by a stranger, which no legal schedule contains -/
+def evOf : String → PoolEv
+  | "get" => .get 0 0
+  | "use" => .use 0 0
+  | "put" => .put 0 0
+  | _ => .use 1 0
+
+/-- a path keeps the protocol: starting with the buffer in the pool the schedule is legal and ends with the
+    buffer back in the pool — taken once, used only while held, given back exactly once -/
+def pathOK (p : List String) : Bool :=
+  match poolRun (fun _ => .pool) (p.map evOf) with
+  | some own => decide (own 0 = .pool) && p.contains "get"
+  | none => false
+
+/-- **every control-flow path of every function that takes a buffer from a package-level pool keeps the
+    protocol** (regenerated from copy.go: `copyWithBuffer`, deferred calls included), and there is such a
+    function -/
+theorem pool_paths_legal :
+    Facts.poolPaths ≠ [] ∧ ∀ f ∈ Facts.poolPaths, f.2 ≠ [] ∧ ∀ p ∈ f.2, pathOK p = true := by decide
+
+/-- a path that gives the buffer back twice (an explicit Put on the error branch under a deferred Put) is
+    refused, as is one that returns without giving it back -/
+example : pathOK ["get", "use", "put", "put"] = false ∧ pathOK ["get", "use"] = false ∧
+    pathOK ["get", "put", "use"] = false := by decide
+
 end GA.C18
